@@ -115,3 +115,38 @@ register(Contract(
         assume={'R-ind': 'rind(self.graph, begin, seen)'})},
     properties=['C13'], gen='graph_and_pair',
 ))
+
+# ---- the region-concealing view (C16), value mode: a region's sub-graph is an opaque identity whose block dictionary
+# is an uninterpreted function of it; the C04 clause "a region's own targets are its exiting block's" is the precondition
+# that makes "continue at the exiting block's targets" the same as "continue at the region's targets"
+VG = 'self.scfg.graph'
+REGION_SYNC = ('all(%s[k].exiting in %s[k].subregion.graph'
+               ' and %s[k].subregion.graph[%s[k].exiting].jump_targets == %s[k].jump_targets'
+               ' for k in %s if type(%s[k]) is RegionBlock)' % ((VG,) * 7))
+START = '(head if head else self.scfg.find_head())'
+register(Contract(
+    qual=SC + ':ConcealedRegionView.__getitem__', params={'self': 'ConcealedRegionView', 'item': 'name'}, returns='block', pure=True,
+    raises={'KeyError': 'item not in self.scfg.graph'},
+    ensures={'def': 'implies(item in self.scfg.graph, result == self.scfg.graph[item])'},
+    properties=['C16'], runtime=False,
+))
+register(Contract(
+    qual=SC + ':ConcealedRegionView.region_view_iterator', params={'self': 'ConcealedRegionView', 'head': 'opt[name]'},
+    returns='set[name]', locals={'to_visit': 'list[name]', 'seen': 'set[name]'},
+    requires={'regions-sync': REGION_SYNC,
+              'start-in': '%s in %s' % (START, VG)},
+    raises={'AssertionError': 'not head and card(%s) != 1' % HEADS.replace('self.graph', VG)},
+    # exactly the blocks and regions of this level that are the start or reachable from it, each once
+    yields='{b for b in %s if b == %s or reach1(%s, %s, b)}' % (VG, START, VG, START),
+    ensures={'exactly': 'result == {b for b in %s if b == %s or reach1(%s, %s, b)}' % (VG, START, VG, START)},
+    loops={'while to_visit': LoopSpec(
+        inv={
+            'yielded': '_yielded == {b for b in seen if b in %s}' % VG,
+            'seen-reach': 'all(x == %s or reach1(%s, %s, x) for x in seen)' % (START, VG, START),
+            'tv-reach': 'all(x == %s or reach1(%s, %s, x) for x in to_visit)' % (START, VG, START),
+            'start': '%s in seen or %s in to_visit' % (START, START),
+            'closed': 'all(t in seen or t in to_visit for x in seen if x in %s for t in %s[x].jump_targets)' % (VG, VG),
+        },
+        assume={'R-ind': 'rind(%s, %s, seen)' % (VG, START)})},
+    properties=['C16'], gen='view',
+))
